@@ -101,6 +101,23 @@ def order(ctx: Any) -> List[Ob]:
         obs.append(ob(R, ns, moved[0].ast if moved else 'if self.server_key == self.key: self.server = name; self.server_key = name.lower()', 'a host name that was defaulted to the instance name follows the instance when it is renamed (a description registered a second time is renamed with its host; else SRV target and addresses stay under the old, conflicting name)', bool(moved), '' if moved else 'the name setter leaves the host name alone: a defaulted host keeps the name the service was renamed away from'))
     badh = sorted(t for t in got if not host_ok(t))
     obs.append(ob(R, f, 'info.set_server_if_missing()', 'the default host name is derived from the final name: after the conflict check (which may rename the service), before the registry insert, and not pinned earlier (a renamed service must not announce its SRV target and addresses under the conflicting name)', not badh, f'paths {badh}'))
+    # `custom TTLs`: a TTL handed to the registration call replaces BOTH TTLs of the description (host records and the others),
+    # and none is touched without it
+    p_info_r, p_ttl_r = f.params[1], f.params[2]
+
+    def eff_ttl(node: Any, evl: Any) -> List[Any]:
+        out_ = []
+        if node.kind == 'stmt':
+            for t, st in attr_stores(node.ast):
+                if isinstance(t.value, ast.Name) and t.value.id == p_info_r and t.attr in ('host_ttl', 'other_ttl') and isinstance(st, ast.Assign):
+                    out_.append((t.attr, norm(st.value)))
+        return out_
+
+    for given in (True, False):
+        oc_t, und_t = traces(ctx, f, {p_ttl_r: 60 if given else None}, eff_ttl)
+        got_t = {frozenset(x for x in strip_ret(t) if isinstance(x, tuple) and x[0] in ('host_ttl', 'other_ttl')) for t in oc_t}
+        want_t = {frozenset({('host_ttl', p_ttl_r), ('other_ttl', p_ttl_r)})} if given else {frozenset()}
+        obs.append(ob(R, f, f'ttl {"given" if given else "not given"}', 'a TTL given to the registration replaces both the host TTL and the other TTL of the service (none without it)', got_t == want_t and not und_t, f'stores on the paths: {[sorted(x) for x in got_t]}'))
     aw = [n for n in walk_local_ordered(f.node) if isinstance(n, ast.Await) and isinstance(n.value, ast.Call) and call_name(n.value) in ('async_wait_for_start', 'async_check_service')]
     obs.append(ob(R, f, 'await self.async_wait_for_start(); await self.async_check_service(...)', 'start-up and probing are awaited (completed) before the service is registered', len(aw) == 2))
     bc = [c for c in walk_local_ordered(f.node) if isinstance(c, ast.Call) and call_name(c) == '_async_broadcast_service']
